@@ -215,6 +215,7 @@ def fcc_cases(tier, seed):
             if d not in w:
                 corpus.append((w, d, ""))
                 corpus.append((w, d, " ; trailing comment"))
+                corpus.append((w, d, " ; the user%ss note %s x %s" % (d, d, d)))      # the delimiter character inside the comment
                 corpus.append((w, d, "   "))
     for _ in range(200 if tier == "quick" else 2000):
         L = rnd.choice([3, 4, 7, 16, 40, 100, 255])
